@@ -142,7 +142,10 @@ def judge (ops impl : List String) : Bool × String :=
   let c := parse ops
   if c.bad then (false, "bad-op") else
   match impl with
-  | ["panic"] => (false, "implementation panicked")
+  | ["panic"] =>
+    if c.base + specStart c.arch c.req.start > u64max then
+      (false, "implementation panicked: image base + start address exceeds 2^64 (u64 overflow in read_bytes_at_relative_address)")
+    else (false, "implementation panicked")
   | [e] =>
     if e.startsWith "err:" ∧ e ≠ "err:badjson" ∧ e ≠ "err:nobinary" ∧ e ≠ "err:other" then
       (true, "error response (the statement is about requests that succeed)")
